@@ -40,6 +40,7 @@ func engRequest(variants []reqParams) vsched.Instance {
 	var outs []*reqOutcome
 	const timeout = 100 * time.Millisecond
 	var lateTargets []*actor.PID
+	replyAt := map[int]int64{} // payload -> virtual time at which the first reply had been handed over
 	body := func() {
 		p = variants[chooseVariant(len(variants))]
 		k = NewKit()
@@ -50,6 +51,9 @@ func engRequest(variants []reqParams) vsched.Instance {
 				}
 				for i := 0; i < p.Replies; i++ {
 					c.Respond(reqMsg{m.N + 1000})
+					if _, ok := replyAt[m.N]; !ok {
+						replyAt[m.N] = vsched.VNow() // the first reply has reached the mailbox (or was found undeliverable) by now
+					}
 				}
 				if p.LateReply {
 					lateTargets = append(lateTargets, c.Sender())
@@ -130,8 +134,20 @@ func engRequest(variants []reqParams) vsched.Instance {
 					vs = append(vs, V("timeout/error-with-result", "%s: requester %d got both %v and %v", p, i, o.got, o.err))
 				}
 			}
-			if p.Replies >= 1 && !p.SlowReply && o.err != nil && o.t1-o.t0 < int64(timeout) {
-				vs = append(vs, V("timeout/spurious-error", "%s: requester %d: %v", p, i, o.err))
+			if at, replied := replyAt[o.payload]; replied && o.err != nil && at < o.t0+int64(timeout) {
+				// The reply was handed over (in virtual time) before the earliest moment the timeout
+				// can expire. If it sits unread in the mailbox, reply and timeout were both ready at the
+				// select and either answer is accepted (§5 C11); if every reply was dead-lettered
+				// instead, a reply sent in time never had a chance to reach the requester.
+				dl := 0
+				for _, e := range k.Events() {
+					if strings.HasPrefix(e, "DeadLetter("+o.respPID+",") {
+						dl++
+					}
+				}
+				if dl >= p.Replies {
+					vs = append(vs, V("timeout/reply-sent-in-time-was-undeliverable", "%s: requester %d: %v; Result called at %d, reply sent at %d, timeout %v, all %d replies dead-lettered; events %v", p, i, o.err, o.t0, at, timeout, p.Replies, k.Events()))
+				}
 			}
 			if o.regAfter {
 				vs = append(vs, V("registry/response-pid-still-registered-after-result", "%s: requester %d: %s", p, i, o.respPID))
@@ -432,7 +448,7 @@ func engTree(variants []treeParams) vsched.Instance {
 					if pp := c.Parent(); pp != nil {
 						parentSeen[name] = pidStr(pp)
 					}
-					if depth < p.Depth {
+					if depth < p.Depth && inc == 1 { // children survive a restart of their parent: spawn them once
 						for i := 0; i < p.Fan; i++ {
 							cn := fmt.Sprintf("%s.%d", name, i)
 							parentOf[cn] = name
